@@ -240,6 +240,11 @@ def render_package(prog):
                      '  command: {executable: echo, arguments: "%s"}' % ref, '  references: ["%s"]' % ref]
             o['ref'] = ref
             o['stage'] = tgt_stage + 1
+    if prog.get('bomb'):
+        # a component of a later stage without producers: it starts early, next to the loop (c02loop lets it fail)
+        last = max([lp['import_stage'] + span_of(lp) for lp in loops] + [o['stage'] for lp in loops for o in lp['outside']])
+        main += ['- stage: %d' % (last + 1 if prog['bomb'].get('after') else last), '  name: Bomb',
+                 '  command: {executable: echo, arguments: "tick"}']
     return '\n'.join(main) + '\n', files
 
 
